@@ -29,7 +29,8 @@ func TestMain(m *testing.M) {
 			"(2) AUTH/HELLO AUTH succeeds iff the user exists, is enabled and is password-less or the password equals a plaintext entry or hashes to a SHA-256 entry; (3) after success ACL WHOAMI names that user, after a failure the identity is what it was; a fresh connection is the default user and unauthenticated (the default user has a password); (4) a deleted or disabled user cannot authenticate and its connections are refused or closed; 'default' survives DELUSER; "+
 			"(5) SAVE followed by LOAD REPLACE or by a restart reproduces the same users: ACL LIST equal as a set of per-user token sets, and the same authentication outcomes. A case is one history; non-trivial = a failed and a successful authentication on one connection, or an edit between two authentications, or a save/load/restart cycle; distinct = FNV-64 of the history.",
 		"only password and enable/disable tokens are edited here; permission rules are C06's subject",
-		"the default user keeps the configured password so that the admin connection stays usable")
+		"the default user keeps the configured password so that the admin connection stays usable",
+		"the default user's own passwords are edited (the administrator re-authenticates with what the reference table says); stored SHA-256 digests are offered as passwords; revocation-in-flight leg: DELUSER / SETUSER off / LOAD REPLACE while the user's pipeline of 500–8000 SET k <i> is being executed — k may advance by at most one command after the acknowledgement")
 	common.Main(m, rec)
 }
 
